@@ -320,8 +320,18 @@ def hyp_search(col: Collector, strategy, check_fn, *, max_examples: int, seed: i
             muted.add(v.klass)
             budget = max(50, max_examples // 4)
             continue
-        except hypothesis.errors.Flaky as exc:  # a non-deterministic oracle is a harness bug
-            raise HarnessError(f"flaky check in {col.subcheck}: {exc}") from exc
+        except hypothesis.errors.Flaky as exc:
+            v = state["best_v"]
+            if v is None:  # nothing failed first: a non-deterministic generator is a harness bug
+                raise HarnessError(f"flaky check in {col.subcheck}: {exc}") from exc
+            # A case violated the property and passed when Hypothesis replayed it.  Every oracle here is a pure function of the answers of
+            # the (cached, shared) registry, so the difference is state left behind in the library by earlier cases: the violation is real,
+            # it needs that history to show.  It is reported with the case that failed; its replay file alone may pass.
+            v2 = Violation(v.klass + ":depends_on_earlier_calls", v.msg + "  [the same case passes on a registry without the earlier calls of this run]")
+            col.violation(state["best_case"], v2)
+            muted.add(v.klass)
+            budget = max(50, max_examples // 4)
+            continue
         break
     return col
 
